@@ -5,7 +5,7 @@
     per pool the tree size after every block; [true_pos size] is the position of the last leaf. *)
 From Coq Require Import ZArith List Lia Bool.
 From V.Lib Require Import Base MachInt.
-From V.C06 Require Import Model Spec PRange PLedger PPut PMain PExtra.
+From V.C06 Require Import Model Spec PRange PLedger PPut PMain PExtra PMore Corr Wf Bridge.
 Import ListNotations.
 Local Open Scope Z_scope.
 
@@ -61,6 +61,29 @@ Proof.
   intros budget chunk c w pol f bs e H Hp Hc. apply (put3_no_err _ _ _ _ c); auto.
   exact (reachable_true _ _ _ _ H).
 Qed.
+
+(** put_blocks on a batch that continues the chain SUCCEEDS in every reachable state (positive
+    budget): neither an error nor the [expect] panic of update_tree *)
+Theorem C06_put_total : forall budget chunk c w pol f bs,
+  0 < budget -> reachable budget chunk c w -> opol_ok pol -> consistent c f bs ->
+  exists w', put3 budget chunk pol f bs w = Ok w'.
+Proof. exact put3_total. Qed.
+
+(** in every reachable state each pool's checkpoint table is strictly ascending in height (one
+    checkpoint per height) *)
+Theorem C06_ledger_sorted : forall budget chunk c w i,
+  reachable budget chunk c w -> sck (ck (proj_pool i w)).
+Proof. intros budget chunk c w i H. exact (reachable_sorted _ _ _ _ H i). Qed.
+
+(** the batch's starting frontier height, when the policy retains it, is registered as a retained
+    anchor in every pool, and retained ids are never dropped by put_blocks *)
+Theorem C06_frontier_retained : forall budget chunk pol f bs w w' i,
+  put3 budget chunk pol f bs w = Ok w' -> blen bs <> 0 -> oretains pol f = true ->
+  In f (rt (proj_pool i w')).
+Proof. exact put3_frontier_retained. Qed.
+Theorem C06_retained_ids_monotone : forall budget chunk pol f bs w w' i x,
+  put3 budget chunk pol f bs w = Ok w' -> In x (rt (proj_pool i w)) -> In x (rt (proj_pool i w')).
+Proof. exact put3_rt_mono. Qed.
 
 (** grid_retained: after put_blocks with a retention policy, every retained boundary of the
     scanned range is checkpointed AND retained in every pool in which it lies above the pool's
@@ -134,6 +157,14 @@ Theorem C06_plan_outcomes : forall s mn h fl,
       apply_plan s mn h fl = Err ECorrupted
   end.
 Proof. exact apply_plan_sound. Qed.
+
+(** bridge (pure cases only: retains, retained_in_range, batch_ensure_heights): inside the domain,
+    model = implementation implies the property clause on the implementation's outcome. The cases
+    of the stateful operations carry booleans observed on the real Merkle tree and a ground-truth
+    table, which no agreement with the ledger model can imply. *)
+Theorem C06_bridge_pure_partial : forall c,
+  wf_case c = true -> known_class c = 0%N -> pure_case c = true -> run_case c = true -> prop_case c = true.
+Proof. exact bridge_pure. Qed.
 
 (** non-vacuity: the hypotheses of the theorems are satisfiable (the counterexample's first batch is
     a consistent batch on a reachable state whose put succeeds) *)
